@@ -8,7 +8,8 @@ claim('C05',
       'than the precision class of the compared value (sqrt of a spectrum is in the 1e-8 class, T3); the feasibility verdict of the '
       'symmetric-extension SDP is "not infeasible", never "status == optimal" (SV1); a clamp that protects a square root sits inside it and '
       'sqrt(c*(1-P)) of a purity is clamped (F5, F2); multipartite reshapes list the subsystems in ascending order on both sides (AR2, 15 '
-      'sites); a module-level memo is keyed on every input of the stored value (MC1: no history-dependent verdict). That eps-class tolerances are large enough and '
+      'sites); a module-level memo is keyed on every input of the stored value (MC1: no history-dependent verdict); a reduced state taken by a single-operand einsum lists row legs before column legs (EO1); all '
+      'call sites of a function pass the same two names in one order (CS1). That eps-class tolerances are large enough and '
       'the solver behaviour are value-level and NOT decided.',
       'Trusted: CPython ast; the enumerated guard idioms of F1; the decision-function table in sa/props.py. A construct '
       'outside the enumerated idioms is reported as undecided/analysis error, never as a violation.',
@@ -74,7 +75,8 @@ claim('C01',
       'at different broadcast positions (SH1 shape inference) and every Euler-recursion reshape has the '
       'asked number of columns for every admissible block width incl. rank==dim (SH2); an orthonormalisation M @ F factorises exactly M^dagger M '
       'with no regularisation term or spectrum floor (W5); a batched literal einsum is its unbatched sibling plus the batch leg (W6); every '
-      'eigsh call names the algebraic end it wants (K5); the hand-written softplus evaluates exp at a non-positive argument (F4); NumPy and PyTorch arms '
+      'eigsh call names the algebraic end it wants (K5); no resolved call crosses two bare-name arguments against the parameter names (AR3: '
+      'density_matrix(dim, rank, batch_size) style wrappers); the hand-written softplus evaluates exp at a non-positive argument (F4); NumPy and PyTorch arms '
       'of 18 functional maps are the same computation (B1). Membership for the other manifolds (unit norm, PSD, X^dagger X = I, '
       'simplex, interval) for all theta is value-level and NOT decided.',
       'Trusted: role table {cayley_order->order, euler_with_phase->with_phase}; exact polynomial arithmetic over Q with //2 rewritten '
@@ -116,7 +118,8 @@ claim('C12',
       'function is typed against the convention, not against its inverse; the three built-in noise channels are trace preserving '
       'for EVERY rate, symbolically (TP), and are not memoised (O3: every request returns a fresh array); a probe matrix handed to a user '
       'channel callable is allocated per call (AL2: identity-like callables may return their argument); spectral reconstructions V f(D) V^dagger '
-      'conjugate the right factor (HM1, incl. .mT vs .mH); NumPy/PyTorch arms agree (B1); entropy formulas guard 0*log 0 (F1). Contractivity, '
+      'conjugate the right factor (HM1, incl. .mT vs .mH); no flattening depends on the memory layout (RO1) and tensordot contractions are '
+      'typed like einsum (X1); NumPy/PyTorch arms agree (B1); entropy formulas guard 0*log 0 (F1). Contractivity, '
       'fidelity and entropy inequalities are value-level and NOT decided.',
       'Trusted: the declared conventions, read from the module\'s own comments; size symbols din != dout.',
       'abstract interpretation of array plumbing over axis-role labels with symbolic sizes; exact polynomial arithmetic for Kraus weights',
@@ -159,7 +162,8 @@ claim('C16',
       'the data) and with_I only drops the last element after the tensor product (G4); every arm of gellmann_matrix is Hermitian with '
       'Tr(G^2) = 2 and the diagonal arms are traceless, for every d and index, symbolically (G6: conjugate pairs at mirrored positions, '
       'd*(2/d) = 2, s^2 (l + l^2) = 2); the tensor-product basis merges rows and columns in the factor order of the element index (KR1); '
-      'the Gell-Mann norm is not computed as the root of a cancelling difference (F2); the analysis does not enumerate pairs in tril order (G1). Orthogonality between different off-diagonal elements (disjoint supports), exact round trip and float32 behaviour '
+      'the Gell-Mann norm is not computed as the root of a cancelling difference (F2); the analysis does not enumerate pairs in tril order (G1); a `:-k` slice with a zero-capable k and a float32 normaliser built from integer aranges are '
+      'reported (NZ2, DT3). Orthogonality between different off-diagonal elements (disjoint supports), exact round trip and float32 behaviour '
       'are value-level and NOT decided.',
       'Trusted: projection semantics (.imag keeps the antisymmetric field only, .real keeps S, D, I) which follow from G1.',
       'ast table/slice extraction + symbolic (polynomial) column-range typing',
@@ -176,7 +180,8 @@ claim('C03',
       'shift_qubit_index_ covers every kind (D3); no cached function hands out a shared Circuit (O2); the state / density-matrix primitives '
       'never store into (a view of) an argument (PU1, alias analysis over 100+ functions); no query method of Circuit is memoised in an '
       'attribute (H5: gates are shared mutable objects); inner_product_psi0_O_psi1 applies the factors of a term to the ket in reversed '
-      'order (IP1). '
+      'order (IP1); every return of the index-relabelling primitives depends on the target tuple (ER1: no order-blind shortcut), and '
+      'an ordered target tuple is never handed to the order-normalising partial_trace (R1). '
       'The control-subspace slicing (reduce_shape_index arithmetic) and marginal probabilities are value-level and NOT decided.',
       'Trusted: canonical gate matrices in sa/gateval.py; the role patterns of D1. kraus gates have no dispatch arm by the '
       "source's own TODO and are excluded.",
@@ -190,7 +195,7 @@ claim('C04',
       'backward leaves torch (A5); backward dispatches to the *_grad twin of the forward primitive (D1); the operator-gradient contraction returns legs '
       '(chosen, fresh) = d/d op[row, col] (R1); the 0/0 mask of the sqrtm backward indexes with the batch column of its nonzero table (A6); the flat-parameter bridge clears .grad '
       'before the backward pass (A7); the custom-backward matrix logarithm is selected whenever the tensor whose log is taken requires grad '
-      '(A8); the fresh legs of the op_grad contraction are listed in the order of `index`, not in qubit-position order (R1); '
+      '(A8); ctx.needs_input_grad is indexed with the slot of the argument whose gradient it guards (A9); the fresh legs of the op_grad contraction are listed in the order of `index`, not in qubit-position order (R1); '
       'parametrised gate matrices agree across backends (B1). That the accumulated '
       'numbers equal the derivative (Sylvester backward, Pade logm) is value-level and NOT decided.',
       'Trusted: the adjoint rule templates; torch.autograd.Function API contract.',
@@ -219,7 +224,8 @@ claim('C07',
       'each key maps to the operator it names, by literal matrix evaluation (H2); the lazy accumulation composes in an order that '
       'is U^dagger P U (H3 parity of traversal direction and multiply operand order; the gate tableau is always embedded through the index '
       'array, which is held in a wide integer dtype); no constructor has an escaping mutable default, so two circuits never share a history '
-      '(MD1); cached tableaux are never mutated (O1); '
+      '(MD1); the register size ranges over every index slot (H7); the F2 sign bit is converted to the tableau phase with the Y-pair '
+      'correction (H8); cached tableaux are never mutated (O1); '
       'random gates draw from the seeded generator with correct bounds (S, S5). Phase bookkeeping (Z4 arithmetic on runtime '
       'arrays) is value-level and NOT decided.',
       'Trusted: mutating-method vocabulary of H1; clifford_multiply(x,y)=y o x as documented in its source comment.',
@@ -233,7 +239,8 @@ claim('C19',
       'make_error_list enumerates each weight-w Pauli exactly once by construction (Q2), name/strings literals agree (Q3), the KL '
       'custom backward follows the adjoint discipline (A); the count loops of make_asymmetric_error_set reach every free qubit (Q5, polynomial '
       'identity of the bound); the weight enumerators are normalised by the code dimension read before zero-padding (Q6); containers modified '
-      'inside a loop are created in that loop (AL1: no Pauli factor leaks from one generated error into the next). The weighted-bound '
+      'inside a loop are created in that loop (AL1: no Pauli factor leaks from one generated error into the next); hf_split_element translates positions to labels (Q7); the '
+      'operator words are enumerated by product, never by combinations (Q2); a named iterator is consumed once (IT1). The weighted-bound '
       'arithmetic and the enumerator sums themselves are NOT decided.',
       'Assumes the simulator applies a recorded gate as the operator of its registry entry (D2 ties names to operators; the '
       'embedding itself is C03). Gate conjugation tables are derived from the literal gate matrices.',
